@@ -8,7 +8,7 @@ pub fn prop() -> Prop {
     Prop {
         id: "C11",
         level: "model_checking",
-        rule: "all sequences S of <=5 (thorough <=7) values over a 6-value universe (three records with per-record regex patterns incl. an invalid one, a record without the selected members, a scalar, an array with a nested cell longer than 64 bytes; two records share a pattern and a split element but differ in what a macro reads besides `.`) — i.e. every concatenation A.B with |A|+|B| <= 5 (thorough 7), every permutation and every duplication — x 20 pipelines made of --set, --split-by, --filter, --select (regex functions with cache sizes 0,1,2; variables; macros; previously selected names; ^ after split; --only-objects-and-arrays) x 5 output styles (one-line, consise, pretty, text, csv) plus text with --headers; and sequences of 64, 257 and 1031 values; sequences of <=4 values mixing small records with rows of 1 KiB, 9 KiB and 20 KiB; non-trivial = S holds two values with different rows; distinct by construction",
+        rule: "all sequences S of <=5 (thorough <=7) values over a 6-value universe (three records with per-record regex patterns incl. an invalid one, a record without the selected members, a scalar, an array with a nested cell longer than 64 bytes; two records share a pattern and a split element but differ in what a macro reads besides `.`) — i.e. every concatenation A.B with |A|+|B| <= 5 (thorough 7), every permutation and every duplication — x 21 pipelines made of --set, --split-by, --filter, --select (regex functions with cache sizes 0,1,2; variables; macros; previously selected names; ^ after split; --only-objects-and-arrays) x 5 output styles (one-line, consise, pretty, text, csv) plus text with --headers; and sequences of 64, 257 and 1031 values; sequences of <=4 values mixing small records with rows of 1 KiB, 9 KiB and 20 KiB; non-trivial = S holds two values with different rows; distinct by construction",
         explanation: "metamorphic: out(S) must be the header (out of the empty input) followed by the bodies of out([s]) for each s in S in order; this single relation over all S implies out(A.B)=out(A).out(B), permutation and duplication",
         assumptions: COMMON_ASSUMPTIONS.to_vec(),
         guards: vec!["row-beyond-every-buffer", "hundreds-of-records", "two-patterns-through-a-one-entry-cache", "header-printed-once", "split-produced-rows", "value-dropped-by-filter", "repeated-value"],
@@ -53,6 +53,12 @@ fn pipelines() -> Vec<Pl> {
         Pl { name: "selected-name", args: vec!["--select=.n=n", "--select=(+ /n/ 1)=n1"], selections: true, cache1: false },
         Pl { name: "define-in-select", args: vec!["--select=(define \"d\" (.+ 1) (map .l @d))=x", "--select=(set \"q\" .n (+ :q :q))=y"], selections: true, cache1: false },
         Pl { name: "fold", args: vec!["--select=(fold .l 0 (+ .so_far .value))=sum"], selections: true, cache1: false },
+        Pl {
+            name: "rarely-used-functions",
+            args: vec!["--select=(parse_selection \"(len .l)\")=a", "--select=(env \"JV_FIXED\")=b", "--select=(format_time .n \"%s|%H:%M\")=c", "--select=(\"+\" (stringify .n) \"0.5\")=d", "--select=(.len)=e", "--select=(order_by .l (- .))=f"],
+            selections: true,
+            cache1: false,
+        },
         Pl { name: "nested-cells", args: vec!["--select=.l=l", "--select=.=whole", "--select=.s=s"], selections: true, cache1: false },
         Pl { name: "macro-reads-parent-after-split", args: vec!["--split-by=.l", "--set=@tag=(+ . ^.n)", "--select=@tag=t", "--select=.=e"], selections: true, cache1: false },
         Pl { name: "macro-reads-parent-in-pipe", args: vec!["--set=@full=(concat ^.s \"-\" .)", "--select=(| .p @full)=name"], selections: true, cache1: false },
@@ -255,5 +261,5 @@ fn run(ctx: &mut Ctx) {
             }
         }
     }
-    ctx.level_done(&format!("all-sequences-of-<={maxlen}-values-x-20-pipelines-x-6-styles"));
+    ctx.level_done(&format!("all-sequences-of-<={maxlen}-values-x-21-pipelines-x-6-styles"));
 }
